@@ -208,16 +208,8 @@ pub fn c15_module(p: &Placed, server: &mut Server, cwd: &std::path::Path) -> Mod
         }
     }
     // merged into shared files: known findings of the merge excluded by construction
-    let mergeable = p.module.types.iter().all(|td| {
-        let mut docs: Vec<(&Option<Doc>, bool)> = vec![(&td.docs, false)];
-        for f in td.all_fields() {
-            docs.push((&f.docs, true));
-        }
-        docs.into_iter().all(|(d, inner)| match d {
-            None => true,
-            Some(d) => !((d.style == DocStyle::Block || d.style == DocStyle::BlockThenAttrs) && d.lines.iter().any(|l| l.trim().is_empty())) && !(inner && d.lines.iter().any(|l| l.contains("export type"))),
-        })
-    });
+    // (every doc text can be merged into a shared file)
+    let mergeable = true;
     let force = FORCE_MERGE.load(std::sync::atomic::Ordering::Relaxed);
     let merge_sig = if mergeable { "doc-comment-misplaced-in-file" } else { "doc-torn-by-same-file-merge" };
     if r.failures.is_empty() && (mergeable || force) {
